@@ -83,6 +83,8 @@ def groups(tier, seed):
         for order in (None, 'size', 'size desc', 'name', 'modified desc'):
             yield {'kind': 'list', 'where': w, 'order': order}
     yield {'kind': 'window'}
+    yield {'kind': 'agg'}
+    yield {'kind': 'ignore'}
     yield {'kind': 'config'}
     yield {'kind': 'rxroot'}
     yield {'kind': 'tz'}
@@ -154,7 +156,7 @@ def eval_group(env, group, tier):
             r.update(status='viol', cls=cls, detail=detail, sig=('viol', cls))
         outs.append(r)
     try:
-        if kind in ('list', 'window', 'config', 'clock', 'rxroot', 'tz'):
+        if kind in ('list', 'window', 'config', 'clock', 'rxroot', 'tz', 'agg'):
             core.materialise(root, list_tree())
         if kind == 'list':
             w, order = group['where'], group['order']
@@ -191,6 +193,47 @@ def eval_group(env, group, tier):
                             bad = ('not-top-n', {'got': ks[:8], 'expected': full[:8]})
                     emit(sub, bad is None, 'listing:' + (bad[0] if bad else ''), {'query': q, 'why': bad[1] if bad else None},
                          nt=arc, sig=(arc, N, len(rows or [])), layer='list')
+        elif kind == 'agg':
+            # aggregates see every member whatever LIMIT says; LIMIT trims result rows only
+            ords = ordinary_rows(root)
+            members = [member_row(os.path.basename(a), a, m) for a, ms in ARCHIVES.items() for m in ms]
+            for w, pred in ((None, lambda r: True), ('size gt 4', lambda r: int(r[2]) > 4), ("name like '%.md' or name like %.txt",
+                            lambda r: r[0].lower().endswith('.md') or r[0].lower().endswith('.txt'))):
+                rows_ = [r for r in ords + members if pred(r)]
+                for N in (None, 1, 2, 3, 10, 1000):
+                    q = 'count(*), sum(size) from . archives' + (' where ' + w if w else '') + ('' if N is None else ' limit %d' % N) + ' into list'
+                    o = env.run([q], cwd=root)
+                    want = [(str(len(rows_)), str(sum(int(r[2]) for r in rows_)))]
+                    emit(['agg', w, N], o.rc == 0 and not o.err and o.rows(2) == want, 'aggregate-over-members',
+                         dict(o.brief(), query=q, expected=want), layer='aggregate')
+                    groups_ = {}
+                    for r in rows_:
+                        groups_.setdefault(r[3], []).append(int(r[2]))
+                    q = 'is_dir, count(*), sum(size) from . archives' + (' where ' + w if w else '') + ' group by is_dir order by is_dir' + \
+                        ('' if N is None else ' limit %d' % N) + ' into list'
+                    o = env.run([q], cwd=root)
+                    want = [(k_, str(len(v_)), str(sum(v_))) for k_, v_ in sorted(groups_.items())][:N]
+                    emit(['agg-grouped', w, N], o.rc == 0 and not o.err and o.rows(3) == want, 'aggregate-over-members',
+                         dict(o.brief(), query=q, expected=want), layer='aggregate')
+        elif kind == 'ignore':
+            # an archive that the ignore rules remove contributes no member either; everything else is unchanged
+            z = zbytes(MEMBERS[:2])
+            core.materialise(root, {'.dockerignore': F(data='*.zip\n!keep.zip\nsecret\n!secret/readme\n'), '.hgignore': F(data='syntax: glob\n*.jar\nhidden\n'),
+                                    '.hg': D({}), 'keep.zip': F(data=z), 'drop.zip': F(data=z), 'lib.jar': F(data=z), 'secret': D({'in.zip': F(data=z), 'readme': F(1)}),
+                                    'hidden': D({'h.zip': F(data=z)}), 'src': D({'a.zip': F(data=z), 'b.jar': F(data=z), 'c.txt': F(3)})})
+            for opt in ('dockerignore', 'hgignore', 'dockerignore hgignore', ''):
+                for mode in ('', ' dfs'):
+                    base = env.run(['path from . %s%s into list' % (opt, mode)], cwd=root)
+                    o = env.run(['path from . archives %s%s into list' % (opt, mode)], cwd=root)
+                    listed = base.rows()
+                    exp = list(listed)
+                    for a in listed:
+                        if a.lower().endswith(('.zip', '.jar')) and os.path.isfile(os.path.join(root, a)):
+                            exp += ['[%s] %s' % (a, m[0]) for m in MEMBERS[:2]]
+                    ok = base.rc == 0 and o.rc == 0 and not o.err and sorted(o.rows()) == sorted(exp)
+                    emit(['ignore', opt, mode], ok, 'members-of-ignored-archive', {'query': 'path from . archives %s%s' % (opt, mode),
+                         'extra': sorted(set(o.rows()) - set(exp))[:6], 'missing': sorted(set(exp) - set(o.rows()))[:6], 'err': o.brief()['err']},
+                         nt=bool(opt), layer='ignore')
         elif kind == 'window':
             members = {a: [member_row(os.path.basename(a), a, m) for m in ms] for a, ms in ARCHIVES.items()}
             ords = ordinary_rows(root)
